@@ -151,6 +151,23 @@ def generate(rng, tier):
                 if rng.random() < 0.5:
                     ops.append({"op": "sleep", "d": rng.choice(DELAYS)})
             actors.append({"name": "w%da%d" % (e, wid), "ops": ops})
+    if gen.use_res and rng.random() < 0.4:
+        # levels also change because a borrower is torn down: a volatile task holding part of R is
+        # closed when its scope ends, another one is cancelled while it holds or acquires
+        amounts = {"a": rng.randint(1, 2)}
+        holder = {"op": "borrow", "on": "R", "id": "vb", "mode": "borrow", "amounts": amounts,
+                  "body": [{"op": "sleep", "d": 64}]}
+        actors.append({"name": "vs", "ops": [
+            {"op": "sleep", "d": rng.choice(gen.delays)},
+            {"op": "scope", "label": "VS", "body": [{"op": "sleep", "d": rng.choice(gen.delays)}],
+             "children": [{"name": "vb", "volatile": True, "ops": [holder]}]}]})
+        if rng.random() < 0.5:
+            actors.append({"name": "cb", "ops": [
+                {"op": "borrow", "on": "R", "id": "cb", "mode": "borrow",
+                 "amounts": {"a": 1, "b": rng.randint(0, 1)}, "body": [{"op": "sleep", "d": 64}]}]})
+            actors.append({"name": "ck", "ops": [{"op": "sleep", "d": rng.choice(gen.delays)},
+                                                 {"op": "postpone", "k": rng.randint(0, 2)},
+                                                 {"op": "cancel", "task": "cb", "token": ["k"]}]})
     if rng.random() < 0.3:
         actors.extend(_diamond(rng, wid))
     for i in range(rng.randint(1, 3)):
@@ -159,6 +176,8 @@ def generate(rng, tier):
     scenario = {"resources": resources, "actors": actors}
     if decimal:
         scenario["start"] = rng.choice([0.2, 0.3, 0.6, 0.7])
+    elif rng.random() < 0.1:
+        scenario["start"] = rng.choice([-1, -5])        # the date 0 lies ahead
     return {"property": ID, "scenario": scenario,
             "plan": [], "config": {"waitq": rng.choice(["heap", "sd"])}}
 
